@@ -359,48 +359,85 @@ def run_case(case, rec):
                     rec.fail("C19.optional-raises", op=where, cls=nkind, attr=attr, detail=f"deleting optional {what} {name!r} of {gpath}: {err}")
                 else:
                     rec.evals["C19.mandatory-or-unclassified-raises"] += 1
-                continue
-            rec.see("opened-damaged-files")
-            if cls == "optional":
-                rec.check("C19.listing-raises", listing_err is None, op=where, cls=nkind, attr=attr, detail=f"after deleting {what} {name!r} of {gpath} the file opens, but reading the workspace listings raises {listing_err}")
-            # getters of undescribed entities that raise in the damaged copy count as altered content
-            # a described entity that comes back under another identifier is still the described entity
-            gone = {(intact[u]["cls"], intact[u]["attrs"].get("name")) for u in drop if u in intact}
-            renamed = {u for u, r in damaged.items() if u not in intact and (r["cls"], r["attrs"].get("name")) in gone}
-            stack = list(renamed)
-            while stack:
-                u = stack.pop()
-                for c in damaged.get(u, {}).get("children") or []:
-                    if c not in renamed and c not in intact:
-                        renamed.add(c)
-                        stack.append(c)
-            if renamed:
-                rec.see("described-entity-under-new-uid")
-            pgs = set(desc.get("pgs") or ())
-            if pgs:
-                # a described property group that comes back under another identifier is still the described one
-                names = {pg["name"] for r in intact.values() for pg in r.get("pgs", []) if pg["uid"].lower() in pgs}
-                known = {pg["uid"].lower() for r in intact.values() for pg in r.get("pgs", [])}
-                pgs |= {pg["uid"].lower() for r in damaged.values() for pg in r.get("pgs", []) if pg["uid"].lower() not in known and pg["name"] in names}
-            a, b = normalise(intact, drop | renamed, pgs), normalise(damaged, drop | renamed, pgs)
-            lost = sorted(set(a) - set(b))
-            extra = sorted(set(b) - set(a))
-            clause = "C19.mandatory-leak" if cls == "mandatory" else "C19.collateral"
-            rec.evals[clause] += max(len(a), 1)
-            if lost:
-                rec.fail(clause, op=where, cls=nkind, attr=attr + ":lost", detail=f"deleting {what} {name!r} of {gpath} lost {len(lost)} entities it does not describe, e.g. {[a[u]['cls'] + ':' + str(a[u]['attrs'].get('name')) for u in lost[:3]]}", counted=True)
-            if extra:
-                # the same content under another identifier is altered content too
-                rec.fail(clause, op=where, cls=nkind, attr=attr + ":extra", detail=f"deleting {what} {name!r} of {gpath} produced {len(extra)} entities unknown to the intact file, e.g. {[b[u]['cls'] + ':' + str(b[u]['attrs'].get('name')) for u in extra[:3]]}", counted=True)
-            changed = None
-            for u in sorted(set(a) & set(b)):
-                if a[u] != b[u]:
-                    dd = diff_paths(a[u], b[u], limit=2)
-                    changed = (u, a[u]["cls"], dd)
-                    break
-            if changed:
-                fld = changed[2][0][0].strip("/").split("/")[0] if changed[2] else ""
-                rec.fail(clause, op=where, cls=nkind, attr=attr + ":altered:" + fld, detail=f"deleting {what} {name!r} of {gpath} altered {changed[1]} {changed[0]} which it does not describe: {short(changed[2], 300)}", counted=True)
+            def judge_opened(damaged, listing_err, tag):
+                rec.see("opened-damaged-files" + tag)
+                if cls == "optional":
+                    rec.check("C19.listing-raises", listing_err is None, op=where + tag, cls=nkind, attr=attr, detail=f"after deleting {what} {name!r} of {gpath} the file opens, but reading the workspace listings raises {listing_err}")
+                # getters of undescribed entities that raise in the damaged copy count as altered content
+                # a described entity that comes back under another identifier is still the described entity
+                gone = {(intact[u]["cls"], intact[u]["attrs"].get("name")) for u in drop if u in intact}
+                renamed = {u for u, r in damaged.items() if u not in intact and (r["cls"], r["attrs"].get("name")) in gone}
+                stack = list(renamed)
+                while stack:
+                    u = stack.pop()
+                    for c in damaged.get(u, {}).get("children") or []:
+                        if c not in renamed and c not in intact:
+                            renamed.add(c)
+                            stack.append(c)
+                if renamed:
+                    rec.see("described-entity-under-new-uid")
+                pgs = set(desc.get("pgs") or ())
+                if pgs:
+                    # a described property group that comes back under another identifier is still the described one
+                    names = {pg["name"] for r in intact.values() for pg in r.get("pgs", []) if pg["uid"].lower() in pgs}
+                    known = {pg["uid"].lower() for r in intact.values() for pg in r.get("pgs", [])}
+                    pgs |= {pg["uid"].lower() for r in damaged.values() for pg in r.get("pgs", []) if pg["uid"].lower() not in known and pg["name"] in names}
+                a, b = normalise(intact, drop | renamed, pgs), normalise(damaged, drop | renamed, pgs)
+                lost = sorted(set(a) - set(b))
+                extra = sorted(set(b) - set(a))
+                clause = "C19.mandatory-leak" if cls == "mandatory" else "C19.collateral"
+                rec.evals[clause] += max(len(a), 1)
+                if lost:
+                    rec.fail(clause, op=where + tag, cls=nkind, attr=attr + ":lost", detail=f"deleting {what} {name!r} of {gpath} lost {len(lost)} entities it does not describe, e.g. {[a[u]['cls'] + ':' + str(a[u]['attrs'].get('name')) for u in lost[:3]]}", counted=True)
+                if extra:
+                    # the same content under another identifier is altered content too
+                    rec.fail(clause, op=where + tag, cls=nkind, attr=attr + ":extra", detail=f"deleting {what} {name!r} of {gpath} produced {len(extra)} entities unknown to the intact file, e.g. {[b[u]['cls'] + ':' + str(b[u]['attrs'].get('name')) for u in extra[:3]]}", counted=True)
+                changed = None
+                for u in sorted(set(a) & set(b)):
+                    if a[u] != b[u]:
+                        dd = diff_paths(a[u], b[u], limit=2)
+                        changed = (u, a[u]["cls"], dd)
+                        break
+                if changed:
+                    fld = changed[2][0][0].strip("/").split("/")[0] if changed[2] else ""
+                    rec.fail(clause, op=where + tag, cls=nkind, attr=attr + ":altered:" + fld, detail=f"deleting {what} {name!r} of {gpath} altered {changed[1]} {changed[0]} which it does not describe: {short(changed[2], 300)}", counted=True)
+                return len(a)
+
+            n_a = judge_opened(damaged, listing_err, "") if opened else 0
+            if cls != "optional":
+                # the same damaged file through the default (writable) open: a reader that repairs what it finds must not
+                # touch what the missing item does not describe either
+                shutil.copy(seed, work)
+                with h5py.File(work, "r+") as h5:
+                    node = h5[gpath]
+                    if what == "attr":
+                        del node.attrs[name]
+                    else:
+                        del node[name]
+                ws = None
+                damaged_rw = None
+                try:
+                    ws = Workspace(work)
+                    damaged_rw = {k.lower(): v for k, v in snap.api_snapshot(ws).items()}
+                    for rcd in damaged_rw.values():
+                        if rcd.get("parent"):
+                            rcd["parent"] = rcd["parent"].lower()
+                        if "children" in rcd:
+                            rcd["children"] = [c.lower() for c in rcd["children"]]
+                except Exception as exc:  # noqa: BLE001
+                    if not exc_origin(exc)[0] and not isinstance(exc, (OSError, KeyError)):
+                        raise
+                    damaged_rw = None
+                    rec.see("refused-to-open:r+")
+                finally:
+                    try:
+                        if ws is not None:
+                            ws.close()
+                    except Exception:  # noqa: BLE001
+                        pass
+                if damaged_rw is not None:
+                    judge_opened(damaged_rw, None, ":r+")
+            a = [None] * n_a
             if len(a) >= 3:
                 rec.nontrivial = True
         rec.shape = [case["file"], shapes]
